@@ -947,6 +947,27 @@ pub fn worker_main() -> i32
         known : std::env::var("VERIF_KNOWN").map(|s| s.split(';').filter(|x| x.len() > 0).map(|x| x.to_string()).collect()).unwrap_or(vec![]),
     };
 
+    // watchdog: a simulation that passes no scheduling point for two minutes is stuck on something
+    // the simulator does not own (see rt.rs)
+    std::thread::spawn(||
+    {
+        use std::sync::atomic::Ordering;
+        let mut last = 0u64;
+        let mut idle = 0u32;
+        loop
+        {
+            std::thread::sleep(std::time::Duration::from_secs(1));
+            let now = super::rt::SIM_STEPS.load(Ordering::Relaxed);
+            if super::rt::SIM_ACTIVE.load(Ordering::Relaxed) && now == last { idle += 1; } else { idle = 0; }
+            last = now;
+            if idle >= 120
+            {
+                eprintln!("STUCK: a simulated thread has been blocked for 120 s outside the scheduler seam (thread/mpsc in build.rs); the changed code synchronises rule threads through something the simulator does not own");
+                std::process::exit(3);
+            }
+        }
+    });
+
     let mut stats = Stats::new();
     stats.want_digests = std::env::var("VERIF_DIGEST").is_ok();
     let mut sigs_seen : BTreeSet<String> = BTreeSet::new();
